@@ -610,6 +610,11 @@ class WitnessScript(Script):
 
         quorum_m = OP_CODE_NAMES[self.commands[0]].split("OP_")[1]
         quorum_n = OP_CODE_NAMES[self.commands[-2]].split("OP_")[1]
+        # 3 because quorum_m, quorum_n and OP_CHECKMULTISIG
+        if int(quorum_n) != len(self.commands) - 3:
+            raise ValueError(
+                f"Witness script states {quorum_n} pubkeys but has {len(self.commands) - 3}: {self}"
+            )
 
         return int(quorum_m), int(quorum_n)
 
